@@ -171,7 +171,9 @@ pub fn run(env: &Env) -> Report {
     let seed = env.a.seed;
     let maxlen = if env.quick() { 3 } else { 4 };
     let reps = par_map(sets.len() * 2, |ui| {
-        let o = sets[ui / 2];
+        // the options the rules do NOT mention vary from unit to unit (ANSI output, smart quotes, English item, number pad): none of
+        // them may change what a key does to the composed text
+        let mut o = sets[ui / 2]; o.ansi = ui % 3 == 1; o.smart_quote = ui % 5 < 2; o.english = ui % 7 < 3; o.numpad = ui % 2 == 0; o.phonetic_suggestion = ui % 4 == 0;
         let half = ui % 2;
         let mut rep = Report::new("c12");
         let xdg = env.fresh_xdg(&format!("c12-{}", ui));
@@ -219,7 +221,8 @@ pub fn run(env: &Env) -> Report {
 fn class_sweep(env: &Env) -> Report {
     let mut prevs: Vec<String> = vec![];
     for cp in 0x0980u32..=0x09FF { if let Some(c) = char::from_u32(cp) { if !matches!(cp, 0x0984 | 0x098D | 0x098E | 0x0991 | 0x0992 | 0x09A9 | 0x09B1 | 0x09B3..=0x09B5 | 0x09BA | 0x09BB | 0x09C5 | 0x09C6 | 0x09C9 | 0x09CA | 0x09CF..=0x09D6 | 0x09D8..=0x09DB | 0x09DE | 0x09E4 | 0x09E5 | 0x09FF) { prevs.push(c.to_string()); } } }
-    for c in ["\u{200C}", "\u{200D}", "-", "(", "\"", ":", "?", "a", "Z", "5", " "] { prevs.push(c.to_string()); }
+    for c in ["\u{200C}", "\u{200D}", "\u{0964}", "\u{0965}"] { prevs.push(c.to_string()); }
+    for cp in 0x20u32..=0x7E { prevs.push(char::from_u32(cp).unwrap().to_string()); }      // every printable ASCII character
     let vals: Vec<String> = ["\u{09BE}", "\u{09BF}", "\u{09C0}", "\u{09C1}", "\u{09C2}", "\u{09C3}", "\u{09C7}", "\u{09C8}", "\u{09CB}", "\u{09CC}", "\u{09CD}", "\u{09D7}", "\u{09CD}\u{09AF}", "\u{09B0}\u{09CD}", "\u{0981}", "\u{0995}", "\u{09AF}", "\u{0985}"].iter().map(|s| s.to_string()).collect();
     // layouts: the previous characters in chunks, each chunk together with all the values
     let room = 90 - vals.len();
@@ -245,10 +248,10 @@ fn class_sweep(env: &Env) -> Report {
             for v in &vals {
                 let (pc, pm) = key_of(p); let (vc, vm) = key_of(v);
                 let ob = s.key(&mut t, pc, pm, 0);
-                if ob == Obs::Panic { rep.violation("C01", "panic", format!("key value {:?} on an empty composition panicked", p), json!({"stream": "c12", "layout": lp, "opts": o.bits_str(), "events": s.events})); s.events.clear(); continue; }
+                if ob == Obs::Panic { rep.violation("C01", "panic", format!("key value {:?} on an empty composition panicked", p), json!({"stream": "c12", "layout": lp, "opts": o.bits_str(), "events": s.events})); s.clear_events(); continue; }
                 let before = pre_text(&ob);
                 let ob = s.key(&mut t, vc, vm, 0);
-                if ob == Obs::Panic { rep.violation("C01", "panic", format!("text {:?} + key value {:?} panicked", before, v), json!({"stream": "c12", "layout": lp, "opts": o.bits_str(), "events": s.events})); s.events.clear(); continue; }
+                if ob == Obs::Panic { rep.violation("C01", "panic", format!("text {:?} + key value {:?} panicked", before, v), json!({"stream": "c12", "layout": lp, "opts": o.bits_str(), "events": s.events})); s.clear_events(); continue; }
                 let after = pre_text(&ob);
                 let evs = s.events.clone(); let ob2 = o.bits_str(); let lp2 = lp.clone();
                 // the first key is held to the rules too (empty text before it)
@@ -256,7 +259,26 @@ fn class_sweep(env: &Env) -> Report {
                 check_key(&mut rep, &o, &before, v, &after, &move || json!({"stream": "c12", "layout": lp2, "opts": ob2, "events": evs}));
                 rep.eval(Some(&format!("sweep|{}|{}|{}", o.bits_str(), p, v)));
                 rep.count("class-sweep-pair");
-                s.finish(&mut t); s.events.clear();
+                s.finish(&mut t); s.clear_events();
+            }
+        }
+        // … and the other way round: every character of the chunk as the VALUE typed after one representative of each kind of
+        // previous character (which values count as vowel signs / ligature-making signs is a set of code points too)
+        for v in &chunks[ci] {
+            for p in ["\u{0995}", "\u{0985}", "\u{09BE}", "\u{09CD}", "\u{0981}", "\u{09AF}"] {
+                let p = p.to_string();
+                let (pc, pm) = key_of(&p); let (vc, vm) = key_of(v);
+                let ob = s.key(&mut t, pc, pm, 0);
+                if ob == Obs::Panic { s.clear_events(); continue; }
+                let before = pre_text(&ob);
+                let ob = s.key(&mut t, vc, vm, 0);
+                if ob == Obs::Panic { rep.violation("C01", "panic", format!("text {:?} + key value {:?} panicked", before, v), json!({"stream": "c12", "layout": lp, "opts": o.bits_str(), "events": s.events})); s.clear_events(); continue; }
+                let after = pre_text(&ob);
+                let evs = s.events.clone(); let ob2 = o.bits_str(); let lp2 = lp.clone();
+                check_key(&mut rep, &o, &before, v, &after, &move || json!({"stream": "c12", "layout": lp2, "opts": ob2, "events": evs}));
+                rep.eval(Some(&format!("sweepv|{}|{}|{}", o.bits_str(), p, v)));
+                rep.count("class-sweep-value-pair");
+                s.finish(&mut t); s.clear_events();
             }
         }
         t.flush();
@@ -264,7 +286,7 @@ fn class_sweep(env: &Env) -> Report {
     });
     let mut rep = Report::new("c12");
     for r in reps { rep.merge(r); }
-    rep.notes.push(format!("class sweep: {} previous characters (every assigned code point of the Bengali block, joiners, ASCII marks/letters) x {} kinds of value x 16 settings", prevs.len(), vals.len()));
+    rep.notes.push(format!("class sweep: {} characters (every assigned code point of the Bengali block, the joiners, danda, every printable ASCII character) as the previous character x {} kinds of value, and as the value after 6 kinds of previous character, x 16 settings", prevs.len(), vals.len()));
     rep
 }
 
@@ -317,7 +339,9 @@ pub fn run_c14(env: &Env) -> Report {
     let seed = env.a.seed;
     let helper_sets: Vec<Opts> = (0..8u32).map(|b| { let mut o = Opts::none(); o.vowel = b & 1 == 1; o.chandra = b & 2 == 2; o.kar = b & 4 == 4; o }).collect();
     let reps = par_map(16, |ui| {
-        let base = helper_sets[ui % 8];
+        let mut base = helper_sets[ui % 8];
+        // the options the property does not mention vary too (the same in both contexts of a pair)
+        base.ansi = ui % 3 == 1; base.smart_quote = ui % 5 < 2; base.english = ui % 7 < 3; base.numpad = ui % 2 == 0;
         let au_mark = ui / 8 == 1;
         let mut rep = Report::new("c14");
         let mut on = base; on.kar_order = true;
@@ -368,7 +392,7 @@ pub fn run_c14(env: &Env) -> Report {
             for _ in 0..(if env.quick() { 250 } else { 5000 }) {
                 let len = 2 + rng.below(10);
                 for _ in 0..len { if rng.chance(12) { a.backspace(&mut t, false); } else { let k = *rng.pick(&pool); a.key(&mut t, code_for_char(k).unwrap(), 0, 0); } }
-                a.finish(&mut t); a.events.clear();
+                a.finish(&mut t); a.clear_events();
                 rep.count("random-history-option-on");
             }
         }
@@ -391,6 +415,26 @@ pub fn run_c14(env: &Env) -> Report {
                         }
                         a.finish(&mut t); b.finish(&mut t);
                     }
+                }
+            }
+        }
+        // a sign that waits when the word ENDS (commit, finish, ctrl-backspace) is gone with the word: no session is left and the next
+        // consonant comes out bare, exactly as with the option off
+        for k in ['i', 'E', 'O'] {
+            for pre in ["", "k", "ka"] {
+                for term in 0..3 {
+                    for c in pre.chars() { a.key(&mut t, code_for_char(c).unwrap(), 0, 0); }
+                    a.key(&mut t, code_for_char(k).unwrap(), 0, 0);
+                    match term { 0 => { a.commit(&mut t, 0); } 1 => { a.finish(&mut t); } _ => { a.backspace(&mut t, true); } }
+                    let still = a.imp.ongoing();
+                    let ta = pre_text(&a.key(&mut t, code_for_char('t').unwrap(), 0, 0));
+                    let tb = pre_text(&b.key(&mut t, code_for_char('t').unwrap(), 0, 0));
+                    rep.eval(Some(&format!("{}|pt|{}{}{}", on.bits_str(), pre, k, term))); rep.count("pending-sign-at-word-end");
+                    if still || ta != tb {
+                        rep.violation("C14", "pending-sign-survives-word-end", format!("opts {}: keys {:?} + waiting sign {:?}, then {}: session still ongoing = {}, next consonant gives {:?} (option off: {:?})", base.bits_str(), pre, bind[&k], ["commit", "finish", "ctrl-backspace"][term], still, ta, tb),
+                            json!({"stream": "c14", "layout": lp, "opts": on.bits_str(), "events": a.events}));
+                    }
+                    a.finish(&mut t); b.finish(&mut t); a.clear_events(); b.clear_events();
                 }
             }
         }
@@ -434,6 +478,8 @@ pub fn run_c13(env: &Env) -> Report {
         // … each also with the old vowel-sign order on: a left-standing sign then WAITS while the reph key is pressed; the reph
         // still goes where the composed text (without the waiting sign) says
         let mut o = sets[ui / 4]; let half = ui % 2; o.kar_order = (ui / 2) % 2 == 1;
+        // "under all other option settings": ANSI output, smart quotes, the English item and the number pad vary from unit to unit
+        o.ansi = ui % 3 == 1; o.smart_quote = ui % 5 < 2; o.english = ui % 7 < 3; o.numpad = ui % 4 < 2; o.phonetic_suggestion = ui % 8 < 3;
         let mut rep = Report::new("c13");
         let xdg = env.fresh_xdg(&format!("c13-{}", ui));
         let mut t = env.trace(&format!("c13.{}", ui));
@@ -483,7 +529,7 @@ pub fn run_c13(env: &Env) -> Report {
             for _ in 0..len { let k = keys[rng.below(nk)].0; before = pre_text(&s2.key(&mut t, code_for_char(k).unwrap(), 0, 0)); }
             let after = pre_text(&s2.key(&mut t, reph, 0, 0));
             if after != format!("{}\u{09B0}\u{09CD}", before) { rep.violation("C13", "reph-off-not-appended", format!("option off: {:?} + reph = {:?}", before, after), json!({"stream": "c13", "opts": off.bits_str(), "events": s2.events})); }
-            s2.finish(&mut t); s2.events.clear();
+            s2.finish(&mut t); s2.clear_events();
         }
         t.flush();
         rep
